@@ -1206,8 +1206,49 @@ fn reest_script(rng: &mut StdRng, n: usize) -> Value {
 	json!({"cfg":{"nodes":n,"chan_type":chan_type,"value":value,"push":push,"feerate":253,"deferred":false}, "ops":ops})
 }
 
+/// Structured crash schedule: updates of the two sides cross on the wire (our add + signature vs. the
+/// peer's fulfil + signature), some of the resulting messages are processed, then one side dies and
+/// comes back from a ChannelManager written before / in the middle of that exchange (C10).
+fn crashcross_script(rng: &mut StdRng, n: usize) -> Value {
+	let types = ["static", "anchors", "zerofee"];
+	let chan_type = types[rng.gen_range(0..3)];
+	let value = [100_000u64, 1_000_000][rng.gen_range(0..2)];
+	let push = value * 500;
+	let a = rng.gen_range(0..2usize);
+	let b = 1 - a;
+	let mut ops: Vec<Value> = Vec::new();
+	let mut npay = 0usize;
+	for _ in 0..rng.gen_range(1..=2) { ops.push(json!({"op":"send","from":a,"to":b,"amt":"big"})); npay += 1; }
+	if rng.gen_bool(0.4) { ops.push(json!({"op":"send","from":b,"to":a,"amt":"big"})); npay += 1; }
+	ops.push(json!({"op":"deliver_all"}));
+	let victim = if rng.gen_bool(0.75) { a } else { b };
+	let save_at = rng.gen_range(0..3);
+	if save_at == 0 { ops.push(json!({"op":"save","node":victim})); }
+	// crossing updates
+	ops.push(json!({"op":"claim","pay":0}));
+	if rng.gen_bool(0.8) { ops.push(json!({"op":"send","from":a,"to":b,"amt":"big"})); npay += 1; }
+	if save_at == 1 { ops.push(json!({"op":"save","node":victim})); }
+	for _ in 0..rng.gen_range(1..7) {
+		if rng.gen_bool(0.5) { ops.push(json!({"op":"deliver","from":b,"to":a})); } else { ops.push(json!({"op":"deliver","from":a,"to":b})); }
+	}
+	if save_at == 2 { ops.push(json!({"op":"save","node":victim})); }
+	for _ in 0..rng.gen_range(0..5) {
+		if rng.gen_bool(0.5) { ops.push(json!({"op":"deliver","from":b,"to":a})); } else { ops.push(json!({"op":"deliver","from":a,"to":b})); }
+	}
+	let mc = ["durable", "latest", "random"][rng.gen_range(0..3)];
+	ops.push(json!({"op":"crash","node":victim,"mgr":"saved","mon":mc}));
+	if rng.gen_bool(0.3) { ops.push(json!({"op":"crash","node":victim,"mgr":0,"mon":"latest"})); }
+	ops.push(json!({"op":"reconnect","a":0,"b":1}));
+	ops.push(json!({"op":"deliver_all"}));
+	for k in 0..npay { ops.push(json!({"op": if rng.gen_bool(0.6) {"claim"} else {"fail"}, "pay":k})); }
+	ops.push(json!({"op":"deliver_all"}));
+	ops.push(json!({"op":"proj","final":true}));
+	json!({"cfg":{"nodes":n,"chan_type":chan_type,"value":value,"push":push,"feerate":253,"deferred":false}, "ops":ops})
+}
+
 fn random_script(rng: &mut StdRng, n: usize, profile: &str) -> Value {
 	if profile == "asyncreest" { return reest_script(rng, n); }
+	if profile == "crashcross" { return crashcross_script(rng, n); }
 	let types = ["static", "anchors", "zerofee"];
 	let chan_type = types[rng.gen_range(0..3)];
 	let value = [100_000u64, 1_000_000, 2_000_000][rng.gen_range(0..3)];
